@@ -145,13 +145,14 @@ def check(case):
         if rs.min() < -1e-9:
             res.fail(f"negative-rowsum:{tag}", f"step matrix (ghosts eliminated) has a negative row sum on {name}: {rs.min():.3e} (relative)", float(-rs.min()))
 
+    coefs = problem.make_coefs(m, P)        # one velocity / diffusivity object for the whole time loop
     for k in range(P['steps']):
         old = np.asarray(phi.value, float)
         vals = np.concatenate([old.ravel(), dvals])
         lo, hi = float(vals.min()), float(vals.max())
         if P['beta'] is not None:
             lo, hi = min(lo, 0.0), max(hi, 0.0)
-        problem.step_implicit(m, phi, P, dt)
+        problem.step_implicit(m, phi, P, dt, coefs=coefs)
         new = np.asarray(phi.value, float)
         if not np.all(np.isfinite(new)):
             res.discarded = True
